@@ -124,6 +124,21 @@ def oArm (nm : Names) (negate : Bool) (p : Bool) (rest : Str) (next : Option Str
     | .noSuch => .error eUnknown
     | .ambiguous => .error eAmbiguous
 
+/-- a letter other than `o` in set's `try_parse_short`: the option it pushes -/
+def setLetter (nm : Names) (negate : Bool) (p : Bool) (c : Char) : Except SetErr (Str × Bool) :=
+  match nm.parseShort c with
+  | none => .error (.unknownShort c)
+  | some (opt, st) =>
+    if !(nm.infoOf opt).modifiable then .error (.unmodifiableShort c)
+    else if p && (nm.infoOf opt).portShort != some (c, st) then .error (.nonPortableShort c)
+    else .ok (opt, if negate then !st else st)
+
+/-- push the letter's option, then go on with the rest of the cluster -/
+def thenCons (l : Except ε (Str × Bool)) (r : Except ε ShortOut) : Except ε ShortOut :=
+  match l with
+  | .error e => .error e
+  | .ok o => consOpt o r
+
 /-- the `while let Some(c) = chars.next()` loop of set's `try_parse_short` -/
 def setShortLoop (nm : Names) (negate : Bool) (next : Option Str) : Bool → Str → Except SetErr ShortOut
   | p, [] => .ok ([], false, p)
@@ -131,13 +146,7 @@ def setShortLoop (nm : Names) (negate : Bool) (next : Option Str) : Bool → Str
     if c = 'o' then
       oArm nm negate p rest next .missingArgument .unknownLong .ambiguousLong .unmodifiableLong
         .nonPortableLong .unseparated true
-    else
-      match nm.parseShort c with
-      | none => .error (.unknownShort c)
-      | some (opt, st) =>
-        if !(nm.infoOf opt).modifiable then .error (.unmodifiableShort c)
-        else if p && (nm.infoOf opt).portShort != some (c, st) then .error (.nonPortableShort c)
-        else consOpt (opt, if negate then !st else st) (setShortLoop nm negate next p rest)
+    else thenCons (setLetter nm negate p c) (setShortLoop nm negate next p rest)
 
 /-- set's `try_parse_long` on `--name` / `++name`; `none` = not a long option -/
 def setLong (nm : Names) (p : Bool) (a : Str) : Option (Except SetErr ((Str × Bool) × Bool)) :=
@@ -161,17 +170,19 @@ inductive Step (ε : Type) where
   | opts (os : List (Str × Bool)) (took : Bool) (p : Bool)
   | fail (e : ε)
 
+def Step.ofShort : Except ε ShortOut → Step ε
+  | .ok (os, took, p') => .opts os took p'
+  | .error e => .fail e
+
+def Step.ofLong : Option (Except ε ((Str × Bool) × Bool)) → Step ε
+  | some (.ok (o, p')) => .opts [o] false p'
+  | some (.error e) => .fail e
+  | none => .stop
+
 def setStep (nm : Names) (p : Bool) (a : Str) (next : Option Str) : Step SetErr :=
   match shortSign a with
-  | some negate =>
-    (match setShortLoop nm negate next p (a.drop 1) with
-     | .ok (os, took, p') => .opts os took p'
-     | .error e => .fail e)
-  | none =>
-    match setLong nm p a with
-    | some (.ok (o, p')) => .opts [o] false p'
-    | some (.error e) => .fail e
-    | none => .stop
+  | some negate => Step.ofShort (setShortLoop nm negate next p (a.drop 1))
+  | none => Step.ofLong (setLong nm p a)
 
 abbrev Looped (ε : Type) := Except ε (List (Str × Bool) × List Str)
 
@@ -245,6 +256,25 @@ inductive ShParse where
   | run (r : Run) | help | version
   deriving DecidableEq, Repr
 
+/-- a letter other than `V` and `o` in `try_parse_short` -/
+def shLetter (nm : Names) (negate : Bool) (p : Bool) (c : Char) : Except ShErr (Str × Bool) :=
+  match nm.parseShort c with
+  | none => .error (.unknownShort c)
+  | some (opt, st) =>
+    if p && (nm.infoOf opt).portShort != some (c, st) then .error (.nonPortableShort c)
+    else if p && negate && (opt = cmdlineOpt || opt = stdinOpt) then .error (.nonPortableShortNegation c)
+    else .ok (opt, if negate then !st else st)
+
+def thenConsV (l : Except ε (Str × Bool)) (r : Except ε (ShortOut × Bool)) : Except ε (ShortOut × Bool) :=
+  match l, r with
+  | .error e, _ => .error e
+  | .ok _, .error e => .error e
+  | .ok o, .ok ((os, took, p'), v) => .ok ((o :: os, took, p'), v)
+
+def noVersion : Except ε ShortOut → Except ε (ShortOut × Bool)
+  | .ok r => .ok (r, false)
+  | .error e => .error e
+
 /-- `try_parse_short`'s loop; the extra Boolean of the error-free result says "`-V` was seen" -/
 def shShortLoop (nm : Names) (negate : Bool) (next : Option Str) : Bool → Str → Except ShErr (ShortOut × Bool)
   | p, [] => .ok (([], false, p), false)
@@ -254,20 +284,9 @@ def shShortLoop (nm : Names) (negate : Bool) (next : Option Str) : Bool → Str 
        else if p then .error (.nonPortableShort 'V')
        else .ok (([], false, p), true))
     else if c = 'o' then
-      (match oArm nm negate p rest next ShErr.missingArgument .unknownLong .ambiguousLong .unknownLong
-          .nonPortableLong .unseparated false with
-       | .ok r => .ok (r, false)
-       | .error e => .error e)
-    else
-      match nm.parseShort c with
-      | none => .error (.unknownShort c)
-      | some (opt, st) =>
-        if p && (nm.infoOf opt).portShort != some (c, st) then .error (.nonPortableShort c)
-        else if p && negate && (opt = cmdlineOpt || opt = stdinOpt) then .error (.nonPortableShortNegation c)
-        else
-          match shShortLoop nm negate next p rest with
-          | .ok ((os, took, p'), v) => .ok (((opt, if negate then !st else st) :: os, took, p'), v)
-          | .error e => .error e
+      noVersion (oArm nm negate p rest next ShErr.missingArgument .unknownLong .ambiguousLong .unknownLong
+          .nonPortableLong .unseparated false)
+    else thenConsV (shLetter nm negate p c) (shShortLoop nm negate next p rest)
 
 /-- `LongOption` -/
 inductive ShLong where
